@@ -32,6 +32,19 @@ def loguniform(rng, lo, hi):
     return math.exp(rng.uniform(math.log(lo), math.log(hi)))
 
 
+def fresh_str(s):
+    """an equal but not identical string object (what a value read from JSON / CSV / user input is)"""
+    return ''.join([s[:1], s[1:]]) if isinstance(s, str) and s else s
+
+
+def maybe_int(rng, x, p=0.15):
+    """whole numbers given as Python ints (333 K, 2 kPa, 1 m2, 10 kg) are legal inputs: with probability p the value is
+    rounded and returned as an int (vectorised rewrites that allocate arrays from the input's dtype truncate with those)"""
+    if x is None or rng.random() >= p:
+        return x
+    return int(round(x))
+
+
 def fraction(rng):
     """a fraction in [0,1]: mostly interior, sometimes within 1e-12 of an end, sometimes an end"""
     r = rng.random()
@@ -53,10 +66,14 @@ def interior(rng):
     return 1.0 - loguniform(rng, 1e-6, 2e-2)
 
 
-def random_component(rng, name='synth', vp=None, uq=True):
+def random_component(rng, name='synth', vp=None, uq=True, any_c=False):
     vp = vp or rng.choice(['antoine', 'frost'])
     if vp == 'antoine':
-        k = VaporPressureConstants(a=rng.uniform(5.5, 8.0), b=rng.uniform(-2200, -900), c=rng.uniform(-70, -10), type='antoine')
+        cc = rng.uniform(-70, -10)
+        if any_c and rng.random() < 0.4:
+            # handbook Antoine sets tabulated for degrees Celsius have c > 0; c = 0 is the Clausius-Clapeyron form
+            cc = rng.choice([0.0, rng.uniform(10, 260)])
+        k = VaporPressureConstants(a=rng.uniform(5.5, 8.0), b=rng.uniform(-2200, -900), c=cc, type='antoine')
     else:
         k = VaporPressureConstants(a=rng.uniform(14, 20), b=rng.uniform(-6000, -3500), c=rng.uniform(-3e5, 1e5), type='frost')
     hc = [rng.uniform(20, 250), rng.uniform(-1, 1), rng.uniform(-3e-3, 3e-3), rng.uniform(-3e-6, 3e-6)]
